@@ -46,8 +46,9 @@ CLAIMED = {
     "C12": ("SMT (z3 polynomial real arithmetic) over symbolic execution of the real LabSetup / liouville_pathway "
             "orientational-averaging code: the three full contractions that fix an isotropic rank-4 average, the "
             "bilinear form, rotation invariance (plane rotations) and fourth-power scaling", "4/C12",
-            "Pathway-level additivity (total = rephasing + non-rephasing; cancellation of cross peaks for uncoupled "
-            "molecules), line shapes and waiting-time evolution are not decided by this check."),
+            "Also pathway level: for uncoupled molecules the summed prefactors cancel at every cross-peak position and "
+            "equal the monomers' at the diagonal ones (real liouville_pathways_3T, symbolic dipoles). Line shapes, "
+            "waiting-time evolution and total = R + NR in the calculator (storage additivity is C19) are not decided."),
     "C13": ("SMT (z3 nonlinear real arithmetic with exact algebraic roots of unity) over symbolic execution of the "
             "real axis-conjugation and DFunction Fourier-transform code", "4/C13", ""),
     "C14": ("SMT (z3; IEEE exp under/overflow as axioms on an uninterpreted Exp; division-by-zero side "
